@@ -1,4 +1,4 @@
-from pyvc.contract import contract
+from pyvc.contract import contract, class_model
 
 # C12: "asking for errors only returns exactly the error-severity subset"
 contract("C12.filter_issues_by_severity",
@@ -12,6 +12,8 @@ contract("C12.filter_issues_by_severity",
              "C12.filter.nothing_invented": "all(any(result[k] is issues_list[i] for i in range(len(issues_list)))"
                                             " for k in range(len(result)))",
              "C12.filter.no_longer": "len(result) <= len(issues_list)",
+             "C12.filter.subset_with_allowed_severity": "all_in(result, lambda x: x.severity <= severity and x in issues_list)",
+             "C12.filter.every_allowed_issue_kept": "all_in(issues_list, lambda x: implies(x.severity <= severity, x in result))",
          },
          bounded={"cases": "rt.gens.issue_lists", "adapter": "rt.adapters.issues_as_objects", "share": True})
 
@@ -27,19 +29,7 @@ contract("C12.get_tag_span_to_error_object",
 contract("C12.update_error_with_char_pos",
          file="hed/errors/error_reporter.py", func="ErrorHandler._update_error_with_char_pos",
          params={"error_object": "Issue"}, returns=None, enc="native",
-         requires=[
-             "(error_object.span_start is None) == (error_object.span_end is None)",
-             "implies(error_object.span_start is not None, 0 <= error_object.span_start <= error_object.span_end)",
-             # established at every format_error call site (call-pre obligations of the sub-tag wrapper):
-             "implies(error_object.has_index_in_tag, 0 <= error_object.index_in_tag)",
-             "implies(error_object.has_index_in_tag and error_object.has_index_in_tag_end and error_object.span_start is not None,"
-             " error_object.index_in_tag <= error_object.index_in_tag_end"
-             " and error_object.index_in_tag_end <= error_object.span_end - error_object.span_start)",
-             "implies(error_object.has_index_in_tag and not error_object.has_index_in_tag_end and error_object.span_start is not None,"
-             " error_object.index_in_tag <= error_object.span_end - error_object.span_start)",
-             "implies(error_object.has_index_in_tag_end, error_object.has_index_in_tag and error_object.index_in_tag_end is not None)",
-             "implies(error_object.has_source_tag, error_object.source_tag is not None)",
-         ],
+         requires=["issue_wf(error_object)"],
          modifies=["error_object.char_index", "error_object.char_index_end", "error_object.has_char_index",
                    "error_object.has_char_index_end", "error_object.message"],
          ghost={"init": {"suffix_added": "0"},
@@ -60,3 +50,23 @@ contract("C12.update_error_with_char_pos",
              "C12.offsets.untouched_when_not_located": "implies(s is None, error_object.has_char_index == old(error_object.has_char_index)"
                                                        " and error_object.char_index == old(error_object.char_index))",
          })
+
+contract("C12.add_context_to_errors", file="hed/errors/error_reporter.py", func="ErrorHandler._add_context_to_errors",
+         params={"error_object": "Issue", "error_context_to_add": "Opaque"}, returns="Opaque", enc="native", trusted=True,
+         assume=["_add_context_to_errors only adds context keys (file, row, column, string) to the issue dict; it does not "
+                 "touch code, message, severity or the index fields"])
+
+class_model("ErrorHandler", {"_check_for_warnings": "Bool", "error_context": "Opaque"})
+
+# C12: decoration keeps every error, drops warnings only when asked to, invents nothing
+contract("C12.add_context_and_filter", file="hed/errors/error_reporter.py", func="ErrorHandler.add_context_and_filter",
+         params={"self": "ErrorHandler", "issues": "List[Issue]"}, returns=None, enc="native",
+         requires=["all_in(issues, lambda x: issue_wf(x))"],
+         modifies=["issues", "heap:Issue.char_index", "heap:Issue.char_index_end", "heap:Issue.has_char_index",
+                   "heap:Issue.has_char_index_end", "heap:Issue.message"],
+         ensures={
+             "C12.decorate.errors_always_kept": "all_in(old(issues), lambda x: implies(x.severity <= 1 or self._check_for_warnings, x in issues))",
+             "C12.decorate.nothing_invented": "all_in(issues, lambda x: x in old(issues))",
+             "C12.decorate.errors_only_when_asked": "implies(not self._check_for_warnings, all_in(issues, lambda x: x.severity <= 1))",
+         },
+         loops={0: {"invariant": ["all_in(issues, lambda x: issue_wf(x))"]}})
